@@ -21,7 +21,8 @@ CLAIMED = {
         "text": "Decides, for all (n,k) at once, necessary structural clauses of k-fold splitting: the in-place block swaps "
                 "around the user closure in iter_fold are paired and undone on every path; records and targets are cut, "
                 "swapped, chunked and concatenated with the same sample-space operands (fold, iter_fold, ChunksIter); the "
-                "training view is the complement of the validation block; the fold size derives from a sample count; "
+                "training view is the complement of the validation block; the fold size derives from a sample count and ChunksIter cuts block i as rows [i*size, (i+1)*size) and stops after "
+                "len/size blocks; "
                 "cross_validate accumulates once per (fold, model) and divides by k; fit/eval errors propagate. Not decided: "
                 "numeric block boundaries for particular (n,k), multiset equality of rows.",
         "design_ref": "DESIGN.md section 4, C01",
@@ -37,8 +38,8 @@ CLAIMED["C02"] = {
             "collapse_axis, in-place axis slicing, normalised to row- and column-space selectors); targets carry the records' row "
             "selector, weights carry it or are empty, names carry their container's column selector or are dropped; the label "
             "filter pushes record, target, weight and counts under one condition; per-feature/per-target iteration attaches the "
-            "name at the collapsed index; the raw-buffer split of owned data is dominated by a standard-layout test. Not decided: that the selector itself is the documented one (ceil(ratio*n), a "
-            "permutation, in-range indices).",
+            "name at the collapsed index; the raw-buffer split of owned data is dominated by a standard-layout test; every index vector handed to select(Axis(a), ..) is a permutation of, or draws "
+            "from, exactly 0..extent(a), and the ratio split point is ceil(nsamples as f32 * ratio). Not decided: multiset equality of rows as values.",
     "design_ref": "DESIGN.md section 4, C02",
     "note": "Trusted: rustc resolution/typeck, the fact dump, documented semantics of ndarray selection methods and Vec::split_off.",
     "technique": _T + ": provenance trace of output containers with selector extraction and sibling agreement of selectors",
@@ -78,7 +79,7 @@ CLAIMED["C07"] = {
             "in all three kinds - for the k-d tree read from the typed HIR of the kdtree crate at the locked version and "
             "intersected with linfa's own post-filter; a homogeneity-degree (dimensional) analysis of the four provided metrics shows "
             "`distance` of degree 1 in the coordinate differences on every branch and rdistance / rdist_to_dist / dist_to_rdist "
-            "consistent with one reduced degree (a squared distance returned as a distance is degree 2). Not decided: geometric sufficiency of pruning bounds, k-NN ties.",
+            "consistent with one reduced degree (a squared distance returned as a distance is degree 2); no query answers Ok before its dimension test. Not decided: geometric sufficiency of pruning bounds, k-NN ties.",
     "design_ref": "DESIGN.md section 4, C07",
     "note": "Trusted: rustc resolution/typeck, the fact dump (also of the locked kdtree dependency), consistency of each metric's four Distance methods.",
     "technique": _T + ": unit-of-measure tag inference (dist/rdist), sibling agreement of argument checks and of the radius relation, dependency facts for kdtree, homogeneity-degree abstract interpretation of the Distance impls",
@@ -104,7 +105,7 @@ CLAIMED["C09"] = {
             "function of state saved under the same acceptance guard as the returned centroids (never of per-restart scratch "
             "state); the buffers behind inertia and counts were filled from the centroid matrix that is returned, with no "
             "reassignment in between on any path; every call of the scan or of the update helpers passes the model's / parameter "
-            "set's own metric. Not decided: cost monotonicity, bounding box, numeric inertia values.",
+            "set's own metric; an initialiser that returns a zero-allocated centroid matrix fills it in loops without early exit. Not decided: cost monotonicity, bounding box, numeric inertia values.",
     "design_ref": "DESIGN.md section 4, C09",
     "note": "Trusted: rustc resolution/typeck, the fact dump, Distance::rdistance being the reduced distance of the configured metric.",
     "technique": _T + ": call-graph agreement on one arg-min routine, guarded-state consistency and reaching-definition freshness of the result fields",
@@ -117,7 +118,8 @@ CLAIMED["C10"] = {
             "are propagated as errors (never unwrapped or discarded) and the empty-component test precedes the division by the "
             "component weights; the responsibilities' log-sum-exp exponentiates v - max(v), so probabilities stay finite "
             "arbitrarily far from the data; everything predict and predict_proba compute is reached from reads of the mixing weights, the "
-            "means and the precision factors (a prediction from the unweighted component densities is not one of maximal probability). "
+            "means and the precision factors (a prediction from the unweighted component densities is not one of maximal probability); the empty-component test "
+            "reads the raw responsibility masses and the log-sum-exp shifts every row by its own maximum. "
             "Not decided: positive definiteness, weights summing to one.",
     "design_ref": "DESIGN.md section 4, C10",
     "note": "Trusted: rustc resolution/typeck, the fact dump.",
@@ -132,7 +134,8 @@ CLAIMED["C12"] = {
             "class; multinomial: arg-max of the scores that predict_probabilities soft-maxes, label read from the stored class "
             "list); every arm of the GLM link/distribution dispatchers calls the same operation of its variant; on every path "
             "(with and without intercept) the value of each loss / gradient function and of the optimiser's cost/gradient adapters is "
-            "computed from the penalty strength alpha - a path-enumerating influence analysis. Not decided: stationarity of the "
+            "computed from the penalty strength alpha - a path-enumerating influence analysis; log-sum-exp shifts per row; no "
+            "quotient has an unguarded exponential of the score above and below the line. Not decided: stationarity of the "
             "returned point beyond these necessary conditions, numeric range of probabilities.",
     "design_ref": "DESIGN.md section 4, C12",
     "note": "Trusted: rustc resolution/typeck, the fact dump; soft-max is monotone per row.",
@@ -145,7 +148,8 @@ CLAIMED["C16"] = {
             "array-level transform; every fit routine returns an error for zero samples before the first reduction; in the "
             "scalers every division by a data-derived quantity (std, max-min, max-abs, row norm) is control-dependent on a zero "
             "test of that divisor; LinearScaler::transform applies only affine per-element arithmetic (no clamp/min/max/abs, no "
-            "branch on element values), so it is the fitted affine map on unseen rows too. Not decided: achieved means, variances, covariances.",
+            "branch on element values), so it is the fitted affine map on unseen rows too; every running column extremum starts from the identity element "
+            "of its own operation. Not decided: achieved means, variances, covariances.",
     "design_ref": "DESIGN.md section 4, C16",
     "note": "Trusted: rustc resolution/typeck, the fact dump. Divisions by singular values in the whiteners are outside the rule (the property claims whitening on full-rank data only).",
     "technique": _T + ": provenance of the output dataset's containers, dominance of the empty-input guard, zero-guard contradiction rule on data-derived divisors",
@@ -155,7 +159,8 @@ CLAIMED["C18"] = {
     "text": "Decides structural necessary conditions for PCA for all data: the empty-dataset and embedding-size (outside 1..p) "
             "tests return their errors before the records are reduced or decomposed; the divisor turning squared singular values "
             "into explained variances derives from the training sample count recorded at fit time (or, for the ratio, cancels); predict is (x - mean).components^T and inverse_transform composed with it is, in a "
-            "non-commutative normal form over dot/+/-/t, exactly x.E^T.E - m.E^T.E + m, the projection about the mean. "
+            "non-commutative normal form over dot/+/-/t, exactly x.E^T.E - m.E^T.E + m, the projection about the mean; the variance ratio does not inherit a divisor that "
+            "vanishes for one component. "
             "Not decided: orthonormality, ordering, spectral optimality, whitening covariance.",
     "design_ref": "DESIGN.md section 4, C18",
     "note": "Trusted: rustc resolution/typeck, the fact dump; the feature=blas branch cannot be built offline and is not analysed.",
@@ -169,7 +174,9 @@ CLAIMED["C13"] = {
             "field its body decrements; in solve, position-indexed state is never indexed with sample-space indices and the "
             "published alpha is sample-indexed; sibling sites of the solver agree (reconstruct_gradient always followed by "
             "unshrinking, i/j blocks of update equal up to renaming, is-free guard and summand on one variable, shrink tests' sign "
-            "pattern); the three support-vector predicates are one expression. Not decided: KKT conditions, rho, objective values.",
+            "pattern); the three support-vector predicates are one expression; every status-change test compares against a snapshot taken "
+            "before the first write; running bounds that start at +/-infinity are tightened by min/max respectively and every "
+            "branch of calculate_rho feeds y_i*G_i. Not decided: KKT conditions, rho, objective values.",
     "design_ref": "DESIGN.md section 4, C13",
     "note": "Trusted: rustc resolution/typeck, the fact dump; the index-space tags are inferred from the code's own swap(); sibling rules were confirmed against the reference SMO algorithm.",
     "technique": _T + ": index-space tag inference, stale-loop-bound detection, sibling agreement (deviant-behaviour) rules on SolverState",
@@ -182,7 +189,8 @@ CLAIMED["C14"] = {
             "min_impurity_decrease tests, candidates leaving less than min_weight_leaf on a side are skipped, and children are "
             "created at depth + 1; the running side weights start from zero or from a total of sample weights and the fraction "
             "mixing the child impurities divides by a total of sample weights (not a sample count); the records are read only "
-            "through axis-aware accessors (no raw memory-order buffer without a layout test). Not decided: impurity arithmetic, leaf majorities, importances.",
+            "through axis-aware accessors (no raw memory-order buffer without a layout test); the relative importances are a "
+            "sequence divided by its own sum. Not decided: impurity arithmetic, leaf majorities, importances.",
     "design_ref": "DESIGN.md section 4, C14",
     "note": "Trusted: rustc resolution/typeck, the fact dump.",
     "technique": _T + ": sibling agreement of the fit-time and predict-time routing relation, dominance of limit tests over split creation, dependency analysis of weight accumulators, raw-buffer who-may-call rule",
